@@ -22,7 +22,7 @@ RULE = ("one evaluation = one faulted run (state, solve index k, failure kind) c
 ASSUMPTIONS = [
     "fits made outside fit_model (outlier detector, bootstrap strata distributions) are not fault targets: the statement covers 'the median or an interval bound'",
     "equality with the reference run (fit k done directly with normalize_weights=False) is bit-for-bit; against the fault-free run only schema/keys and, for lambda = 0, equality of the weighted pinball objective (1e-9 relative) are demanded, because the LP can have several optimal vertices",
-    "the inaccuracy warning is injected as a UserWarning attributed to module cvxpy.problems.problem (what cvxpy emits); the library's own module-level filter must turn it into an exception",
+    "the inaccuracy warning is emitted through the installed cvxpy's own warn helper (recent cvxpy attributes it to the calling solver module) and, as a second kind, attributed to cvxpy.problems.problem (older cvxpy); the library's own filters must turn both into an exception and a retry",
 ]
 REAL = C.REAL
 STUBBED = C.STUBBED + ["solver failure: QuantileRegressionSolver subclass that fails the k-th fit once (real solver otherwise)"]
@@ -47,8 +47,9 @@ def make_spec(st, idx, tier):
     seq = [dict(k="poll", role="base", record_fits=True, fresh_client=True)]
     for k in range(F):
         seq.append(dict(k="poll", role="reference", solver_ref_at=k, fit_index=k, fresh_client=True))
-        for kind in ("solver_error", "inaccurate_warning"):
+        for kind in ("solver_error", "inaccurate_warning", "inaccurate_warning_legacy"):
             seq.append(dict(k="poll", role="fault", solver_fault=dict(at=k, kind=kind, record=True), fit_index=k, fresh_client=True))
+    seq.append(dict(k="poll", role="after_faults", record_fits=True, fresh_client=bool(st.solver.random() < 0.5)))
     for i, o in enumerate(seq):
         o["t"] = round(cut + 0.001 * (i + 1), 4)
     spec["ops"] = ops + seq
@@ -103,6 +104,23 @@ class Checker(C.BaseChecker):
             return []
         if self.base is None or not self.base.ok:
             return []
+        if role == "after_faults":
+            # history: earlier failed solves in this process must leave nothing behind
+            st.evaluations += 1
+            st.probes["fault_free_poll_after_faults"] += 1
+            if rec.digest != self.base.digest:
+                bf, af = self.base.extra["fits"], rec.extra["fits"]
+                why = "tables differ"
+                if len(bf) == len(af):
+                    for i, (x, y) in enumerate(zip(bf, af)):
+                        ex_, _ = effective(x)
+                        ey_, _ = effective(y)
+                        d = [n for n in ("taus", "lambda_", "fit_intercept", "normalize_weights") if not same(ex_[n], ey_[n])]
+                        if d:
+                            why = f"fit #{i} now uses {d[0]}={ey_[d[0]]!r} (fault-free run before the faults: {ex_[d[0]]!r})"
+                            break
+                return [self.v("state_left_behind", f"a fault-free poll after the faulted polls differs from the fault-free poll before them: {why}", estimator=p["pi_method"])]
+            return []
         k = op["fit_index"]
         if role == "reference":
             self.ref[k] = rec
@@ -132,8 +150,9 @@ class Checker(C.BaseChecker):
         if not rec.ok:
             return [self.v("not_completed", f"{kind} at solve #{k} ({which}) was fatal: {rec.exc_type}: {rec.exc_msg}", exception=rec.exc_type.split(".")[-1], **flags)]
         # (ii) the retry: next call, same solver object, same arguments, no weight normalisation
-        if len(fits) <= fi + 1:
-            return [self.v("no_retry", f"{kind} at solve #{k}: no further fit was attempted", **flags)]
+        if len(fits) <= fi + 1 or len(fits) == len(self.base.extra["fits"]):
+            return [self.v("no_retry", f"{kind} at solve #{k} ({which}): the fit was not re-run (the run made {len(fits)} fit calls, exactly as many as the fault-free run): "
+                                       f"the reported failure was ignored and its solution used", **flags)]
         a, b = fits[fi], fits[fi + 1]
         k_solve, k = k, fi  # from here on k indexes fit CALLS
         ea, ua = effective(a)
